@@ -108,7 +108,19 @@ pub fn abscissa_lists(thorough: bool) -> (Vec<Vec<f64>>, usize) {
         }
         out.push((0..n).map(|i| 0.3 + i as f64 * 0.1).collect());
         out.push((0..n).map(|i| 1e6 + i as f64 * 0.1).collect());
+        // far from the origin on either side (tens of thousands to millions of widths away), both signs of the abscissae
+        for off in [2e4, 1e6] {
+            for h in [1.0, 0.1] {
+                out.push((0..n).map(|i| off + i as f64 * h).collect());
+                out.push((0..n).map(|i| -off - (n - 1 - i) as f64 * h).collect());
+            }
+        }
     }
+    // neighbouring widths that differ by 17 orders of magnitude (secant slopes whose ratio exceeds 2^53 for ordinary ordinates)
+    out.push(vec![0.0, 1e-17, 1.0, 2.0]);
+    out.push(vec![-1.0, 0.0, 3e-18, 5.0]);
+    out.push(vec![0.0, 1.0, 1.0 + 2f64.powi(-50), 3.0, 4.0]);
+    out.push(vec![-2.0, -1e-17, 0.0, 1e-17, 2.0]);
     (out, reduced_from)
 }
 
